@@ -76,7 +76,14 @@ impl<'a, TPrinter: Printer> FileExecutor<'a, TPrinter> {
         let config = self.execution_engine.execution_config();
         self.execution_engine.execute_joined_table(self.running.clone())?;
 
+        // The limit can be reached before any input is read (LIMIT 0) and holds across all input files
+        let mut reached_limit = self.execution_engine.reached_limit();
+
         for reader in std::mem::take(&mut self.readers).into_iter() {
+            if reached_limit {
+                break;
+            }
+
             for line in reader.lines() {
                 #[cfg(feature="verif_hooks")]
                 crate::verif_hooks::point(crate::verif_hooks::Point::BatchLine);
@@ -97,6 +104,7 @@ impl<'a, TPrinter: Printer> FileExecutor<'a, TPrinter> {
                     }
 
                     if output.reached_limit {
+                        reached_limit = true;
                         break;
                     }
                 } else {
@@ -210,6 +218,10 @@ impl<'a> FollowFileExecutor<'a> {
     pub fn execute(&mut self) -> ExecutionResult<()> {
         if self.execution_engine.is_join() {
             return Err(ExecutionError::JoinNotSupported);
+        }
+
+        if self.execution_engine.reached_limit() {
+            return Ok(());
         }
 
         for input_line in FollowFileIterator::new(self.reader.take().unwrap()) {
